@@ -320,7 +320,11 @@ fn lookups(pool: &[String]) -> (String, String) {
     let ctx = current();
     let p = ctx.path();
     let parent = match ctx.parent() {
-        Ok(m) => tok(m.path().as_str()),
+        // the parent's children map must lead back to this very module (not to a same-named other instance)
+        Ok(m) => match m.child(&ctx.name()) {
+            Ok(c) if c.id() == ctx.id() => tok(m.path().as_str()),
+            _ => "!ghost".to_string(),
+        },
         Err(ModuleReferencingError::NoEntry(_)) => "-".to_string(),
         Err(_) => "!".to_string(),
     };
